@@ -353,6 +353,26 @@ def mk_toeplitz(rng, s, spd=False):
     return SymmetricBandToeplitzOperator(band, s, method=method)
 
 
+def toeplitz_grid(i: int, rng):
+    """the i-th operator of a deterministic grid over (length 1..9, bands 1..5, method, transform size) with a seeded
+    choice of band batch, dtype and leading axes: data shorter than the kernel, a single band, explicit minimal / odd /
+    default transform sizes, one band row per detector — coverage that does not depend on the draw"""
+    n = 1 + i % 9
+    K = 1 + (i // 9) % 5
+    method, fft = [('overlap_save', None), ('overlap_save', 'min'), ('dense', None), ('direct', None), ('fft', None),
+                   ('overlap_save', 'odd'), ('overlap_save', None)][(i // 45 + i) % 7]
+    batch = rng.choice([(), (), (2,), (1,)])
+    dt = rng.choice([jnp.float32, jnp.float32, jnp.float64 if jax.config.jax_enable_x64 else jnp.float32])
+    band = np.array([rng.choice([4.0, 1.0, -1.0, 0.5, 2.0]) for _ in range(int(np.prod(batch + (K,))))]).reshape(batch + (K,))
+    kw = {}
+    if fft == 'min':
+        kw['fft_size'] = 2 * K - 1
+    elif fft == 'odd':
+        kw['fft_size'] = 2 * K - 1 + rng.choice([2, 4, 1, 3])
+    s = jax.ShapeDtypeStruct(((2,) if batch else rng.choice([(), (3,)])) + (n,), dt)
+    return SymmetricBandToeplitzOperator(jnp.asarray(band, dtype=dt), s, method=method, **kw), f'{method}:{fft}'
+
+
 def mk_broadcast_diag(rng, s):
     if not is_single_array(s) or len(s.shape) != 1:
         return None
@@ -523,6 +543,32 @@ def pat_index(rng, s):
     return [p, p.T, p] if rng.random() < 0.5 else [p, p.T]
 
 
+def pat_index_multi(rng, s):
+    """ALWAYS an index tuple touching two axes (or one through an ellipsis) next to its transpose: duplicate-free, so
+    P @ P.T must become the identity"""
+    for _ in range(6):
+        p = mk_index_multi(rng, s)
+        if p is not None and p.unique_indices:
+            return [p, p.T, p]         # application order: P, then P.T, then P — contains P @ P.T
+    return None
+
+
+def pat_index_unique(rng, s):
+    """ALWAYS a duplicate-free single-axis index array (flag given) next to its transpose"""
+    p = mk_index(rng, s, force_unique=True)
+    if p is None:
+        return None
+    return [p, p.T, p]
+
+
+def pat_index_repeats(rng, s):
+    """ALWAYS P.T @ P for a single indexed axis whose array repeats values: the multiplicity diagonal"""
+    p = mk_index(rng, s, force_unique=False)
+    if p is None:
+        return None
+    return [p, p.T]                # application order: P, then P.T — the operator P.T @ P
+
+
 def pat_pack(rng, s):
     p = mk_pack(rng, s)
     if p is None:
@@ -645,7 +691,7 @@ def pat_block_rule_identities(rng, s):
 
 
 PATTERNS = [pat_inverse_pair, pat_lazy_inverse_pair, pat_rotations, pat_rot_hwp, pat_pol_hwp,
-            pat_index, pat_pack, pat_reshape, pat_moveaxis, pat_block_diag_diag, pat_block_col_diag,
+            pat_index, pat_index_multi, pat_index_unique, pat_index_repeats, pat_pack, pat_reshape, pat_moveaxis, pat_block_diag_diag, pat_block_col_diag,
             pat_block_single, pat_block_nested, pat_sandwich, pat_identity, pat_scalars, pat_block_rule_identities]
 
 
@@ -682,7 +728,7 @@ def gen_chain(rng: random.Random, s, length: int, depth: int, p_pattern: float =
 PATTERN_STRUCTURES = {
     'pat_rotations': 'stokes', 'pat_rot_hwp': 'stokes', 'pat_pol_hwp': 'stokes', 'pat_moveaxis': 'mat',
     'pat_sandwich': 'matlist', 'pat_lazy_inverse_pair': 'vec', 'pat_block_diag_diag': 'container',
-    'pat_block_rule_identities': 'matlist',
+    'pat_block_rule_identities': 'matlist', 'pat_index_multi': 'mat',
 }
 
 
